@@ -47,30 +47,39 @@ inductive MembersBound (objs : List Obj) : List PathElem → List Path → Prop
 
 Written from the language reference: `a.b` names the field (or parameter) `b` of the structure
 that is the *type of the field `a`*; a virtual field that merely renames another field
-(`let a = x.y`) stands for that field; nothing else has members.  The three judgements are the
-three cases of one inductive family (so that rule induction is plain `induction`):
+(`let a = x.y`) stands for that field; nothing else has members.  The judgements are the cases
+of one inductive family (so that rule induction is plain `induction`):
 
-* `phys o p`   — following renaming virtual fields from the definition `o` ends in the physical
-                 field `p`;
+* `renames o o'` — `o` is a virtual field `let o = <field reference>` and the last element of
+                 that reference is bound to the definition `o'`;
+* `chain o via p` — following such renamings from `o` leads to `p`; `via` lists the renaming
+                 fields passed on the way (`o` first);
 * `mem o rs cs` — the path elements `rs`, looked up one after the other starting from the
                  definition `o`, are bound to the canonical names `cs`;
-* `path i cs`  — the `i`-th field reference of the module is bound, element by element, to `cs`. -/
+* `path i cs`  — the `i`-th field reference of the module is bound, element by element, to `cs`.
+
+A member is looked up in the type of the *physical* field that a chain of renamings through
+pairwise distinct fields ends in (`memCons`).  A chain that comes back to a field it has already
+passed never reaches a physical field: such a field names nothing and has no members
+(`MemberFails.physCycle`). -/
 
 inductive MemberJudgement
-  | phys (o p : Obj)
+  | renames (o o' : Obj)
+  | chain (o : Obj) (via : List Obj) (p : Obj)
   | mem (o : Obj) (rs : List PathElem) (cs : List Path)
   | path (i : Nat) (cs : List Path)
 
 inductive MemberRule (E : FEnv) : MemberJudgement → Prop
-  | physAtomic {o t} : o.kind = .field (.atomic t) → MemberRule E (.phys o o)
-  | physArray {o} : o.kind = .field .array → MemberRule E (.phys o o)
   /-- `let o = <field reference i>`: what the last element of that reference is bound to -/
-  | physAlias {o i cs c o' p} : o.kind = .field (.virtAlias i) → MemberRule E (.path i cs) →
-      cs.getLast? = some c → findObject E.objs c = some o' → MemberRule E (.phys o' p) →
-      MemberRule E (.phys o p)
+  | renames {o i cs c o'} : o.kind = .field (.virtAlias i) → MemberRule E (.path i cs) →
+      cs.getLast? = some c → findObject E.objs c = some o' → MemberRule E (.renames o o')
+  | chainNil {o} : MemberRule E (.chain o [] o)
+  | chainCons {o o' via p} : MemberRule E (.renames o o') → MemberRule E (.chain o' via p) →
+      MemberRule E (.chain o (o :: via) p)
   | memNil {o} : MemberRule E (.mem o [] [])
-  /-- `r` is looked up in the type `tc` of the physical field behind `o` — and nowhere else -/
-  | memCons {o p t tc r o' rest cs} : MemberRule E (.phys o p) → p.kind = .field (.atomic t) →
+  /-- `r` is looked up in the type `tc` of the physical field `p` behind `o` — and nowhere else -/
+  | memCons {o via p t tc r o' rest cs} : MemberRule E (.chain o via p) → via.Nodup →
+      p.kind = .field (.atomic t) →
       E.typeCanon t = some tc → findObject E.objs (tc ++ [r.name]) = some o' →
       MemberRule E (.mem o' rest cs) → MemberRule E (.mem o (r :: rest) ((tc ++ [r.name]) :: cs))
   | pathSingle {i fr h p} : E.frefs i = some fr → E.headCanon i = some h → fr.path = [p] →
@@ -93,23 +102,26 @@ inductive MemberFailJudgement
   | path (i : Nat) (e : Err)
 
 inductive MemberFails (E : FEnv) : MemberFailJudgement → Prop
-  /-- a parameter, a module, a type, an enum value has no members -/
-  | physNonField {o prev} : (∀ sh, o.kind ≠ .field sh) →
+  /-- the renamings end in a parameter, a module, a type, an enum value: no members -/
+  | physNonField {o via p prev} : MemberRule E (.chain o via p) → (∀ sh, p.kind ≠ .field sh) →
       MemberFails E (.phys o prev (.noncomposite prev.name prev.rloc))
-  /-- a virtual field that is not a plain renaming has no members -/
-  | physOther {o prev} : o.kind = .field .virtOther →
+  /-- … in a virtual field that is not a plain renaming: no members -/
+  | physOther {o via p prev} : MemberRule E (.chain o via p) → p.kind = .field .virtOther →
       MemberFails E (.phys o prev (.noncomposite prev.name prev.rloc))
-  | physAlias {o i cs c o' prev e} : o.kind = .field (.virtAlias i) → MemberRule E (.path i cs) →
-      cs.getLast? = some c → findObject E.objs c = some o' → MemberFails E (.phys o' prev e) →
-      MemberFails E (.phys o prev e)
+  /-- … in a renaming field that was already passed (`let g = f.g` where `f` has the enclosing
+  structure as its type): the renaming names no field at all -/
+  | physCycle {o via p prev} : MemberRule E (.chain o via p) → p ∈ via →
+      MemberFails E (.phys o prev (.noncomposite prev.name prev.rloc))
   | memPhys {o prev r rest e} : MemberFails E (.phys o prev e) →
       MemberFails E (.mem o prev (r :: rest) e)
-  | memArray {o p prev r rest} : MemberRule E (.phys o p) → p.kind = .field .array →
+  | memArray {o via p prev r rest} : MemberRule E (.chain o via p) → via.Nodup →
+      p.kind = .field .array →
       MemberFails E (.mem o prev (r :: rest) (.arrayMember prev.name prev.rloc))
-  | memMissing {o p t tc prev r rest} : MemberRule E (.phys o p) → p.kind = .field (.atomic t) →
+  | memMissing {o via p t tc prev r rest} : MemberRule E (.chain o via p) → via.Nodup →
+      p.kind = .field (.atomic t) →
       E.typeCanon t = some tc → findObject E.objs (tc ++ [r.name]) = none →
       MemberFails E (.mem o prev (r :: rest) (.missing r.name r.nloc))
-  | memLater {o p t tc prev r rest o' e} : MemberRule E (.phys o p) →
+  | memLater {o via p t tc prev r rest o' e} : MemberRule E (.chain o via p) → via.Nodup →
       p.kind = .field (.atomic t) → E.typeCanon t = some tc →
       findObject E.objs (tc ++ [r.name]) = some o' → MemberFails E (.mem o' r rest e) →
       MemberFails E (.mem o prev (r :: rest) e)
